@@ -255,7 +255,7 @@ Lemma eval_stepops_cons op s t nodes :
                  | LpDescendantOrSelfNode => flat_map_res (descendant_and_self doc) nodes
                  end) ;;
    collected <- flat_map_m (eval_step doc s) from ;;
-   eval_stepops doc t collected).
+   eval_stepops doc t (step_dedup doc collected)).
 Proof. reflexivity. Qed.
 
 Lemma eval_step_current n : eval_step doc StepCurrent n = ret [n].
